@@ -278,7 +278,7 @@ def _body(ck: Checker, prog: Program, q: str):
     single = q.endswith("single_azimuth_hvsr_processing")
     az = sp.Symbol("azimuth", real=True)
     ex = RowExec(prog, b, az)
-    stmts = [st for st in b.record_loop.body if st is not b.filter_if]
+    stmts = b.stmts if b.stmts else [st for st in b.record_loop.body if st is not b.filter_if]
     ex.run(stmts)
     for n in ex.notes:
         ck.violation("C01.R3", q, n, n, loc=f.loc(b.record_loop))
@@ -293,14 +293,27 @@ def _body(ck: Checker, prog: Program, q: str):
         for k, v in ex.rows.items():
             if k.startswith("raw_spectra_per_record"):
                 got["raw_spectra_per_record[-1]" if k.endswith("[-1]") else "raw_spectra_per_record[idx]"] = v
-    elif single:
-        want = {"raw_spectra[hor_idx]": sp.Abs(rfft_(taper(proj(NS, EW, ex.T.sym("settings.azimuth_in_degrees"))))),
-                "raw_spectra[ver_idx]": sp.Abs(rfft_(taper(VT)))}
-        got = {k: v for k, v in ex.rows.items() if k.startswith("raw_spectra[")}
     else:
-        want = {"raw_spectra[hor_idx]": combine(sp.Abs(rfft_(taper(NS))), sp.Abs(rfft_(taper(EW)))),
-                "raw_spectra[ver_idx]": sp.Abs(rfft_(taper(VT)))}
-        got = {k: v for k, v in ex.rows.items() if k.startswith("raw_spectra[")}
+        # which stored row is the numerator / denominator follows from the row-index algebra (C03): row k / row count + k
+        C = C03._Counters(b, q)
+        got = {}
+        for k_txt, node in ex.row_nodes.items():
+            if not isinstance(node.value, ast.Name):
+                continue
+            try:
+                idx = sp.expand(Translator(env=C.env_at(node)).tr(node.slice))
+            except AnalysisError:
+                continue
+            if idx == sp.expand(C03.k_):
+                got["raw_spectra[hor_idx]"] = ex.rows[k_txt]
+            elif idx == sp.expand(C03.CNT_ + C03.k_):
+                got["raw_spectra[ver_idx]"] = ex.rows[k_txt]
+        if single:
+            want = {"raw_spectra[hor_idx]": sp.Abs(rfft_(taper(proj(NS, EW, ex.T.sym("settings.azimuth_in_degrees"))))),
+                    "raw_spectra[ver_idx]": sp.Abs(rfft_(taper(VT)))}
+        else:
+            want = {"raw_spectra[hor_idx]": combine(sp.Abs(rfft_(taper(NS))), sp.Abs(rfft_(taper(EW)))),
+                    "raw_spectra[ver_idx]": sp.Abs(rfft_(taper(VT)))}
     for k, w in want.items():
         g = got.get(k)
         role = "vertical" if ("ver_idx" in k or k.endswith("[-1]")) else "horizontal"
